@@ -590,3 +590,15 @@ SymTimedeltaUs.__radd__ = _td_radd
 
 
 sym_timedelta.__pv_instancecheck__ = lambda obj: isinstance(obj, (SymTimedeltaUs, SymTimedelta))
+
+
+def _td_divmod(self, o):
+    u = _us_of(o)
+    if u is None:
+        return NotImplemented
+    q = self.us // u
+    return q, SymTimedeltaUs(self.us - q * u)
+
+
+SymTimedeltaUs.__divmod__ = _td_divmod
+SymTimedeltaUs.__floordiv__ = lambda self, o: _td_divmod(self, o)[0]
